@@ -8,10 +8,8 @@
   Bit operations of the code are written arithmetically; every place says which identity is used:
   `x & (2^k-1) = x % 2^k`, `x >> k = x / 2^k` (floor), `a | b = a + b` for disjoint bit ranges.
 
-  INTENDED behaviour is modelled where the pinned tree is known to be wrong (DESIGN §7 rows 9, 10):
-  * `write_milliseconds` tests `% 30min == 0` (the pinned code tests `== 30`);
-  * `write_zone_interval_transition` computes `hours` by truncating division (the pinned code uses
-    `_csharp_modulo`, so `hours` is always 0 there and the hours form is never emitted).
+  The writer is the code as repaired by 376f97f (`write_milliseconds` tests `% 30min == 0`) and 5927b21
+  (`write_zone_interval_transition` computes `hours` by truncating division).
 -/
 import PyodaModel.ZoneData
 
@@ -116,32 +114,13 @@ def MS30MIN : Int := 1800000
 def MSMIN : Int := 60000
 def MSSEC : Int := 1000
 
-/-- `write_milliseconds` — INTENDED (`== 0` in the first test). Forms after adding one day:
+/-- `write_milliseconds`. Forms after adding one day:
     1 byte `0xxxxxxx` = half hours; 2 bytes `100xxxxx` minutes; 3 bytes `101xxxxx` seconds;
     4 bytes `110xxxxx` milliseconds. (`128 | m >> 8` = `128 + m / 256` since `m < 2880`, etc.) -/
 def writeMilliseconds (millis : Int) : R Bytes := do
   checkRange millis (-MsPD + 1) (MsPD - 1)
   let m := millis + MsPD
   if csharpMod m MS30MIN = 0 then do
-    let units ← pyTdiv m MS30MIN
-    writeByte units
-  else if csharpMod m MSMIN = 0 then do
-    let minutes ← pyTdiv m MSMIN
-    let a ← writeByte (128 + minutes / 256)
-    let b ← writeByte (minutes % 256)
-    .ok (a ++ b)
-  else if csharpMod m MSSEC = 0 then do
-    let seconds ← pyTdiv m MSSEC
-    let a ← writeByte (160 + seconds / 65536)
-    .ok (a ++ writeInt16 (seconds % 65536))
-  else
-    .ok (writeInt32 (3221225472 + m))
-
-/-- what the PINNED code does (first test `== 30`); used only to state the defect. -/
-def writeMillisecondsPinned (millis : Int) : R Bytes := do
-  checkRange millis (-MsPD + 1) (MsPD - 1)
-  let m := millis + MsPD
-  if csharpMod m MS30MIN = 30 then do
     let units ← pyTdiv m MS30MIN
     writeByte units
   else if csharpMod m MSMIN = 0 then do
